@@ -340,6 +340,7 @@ def run (ctx):
   bad_ = [p for p in pin if p in r] + [n for n in g.nodes_with_call(lambda c: call_name(c) == '_buffer_packet') if n in r]
   ctx.ob('R-DOM', rx, "a table miss on a NO_PACKET_IN port is neither buffered nor reported", not bad_, "unreachable" if not bad_ else "packet-in/buffering reachable with NO_PACKET_IN set", rx, 'D3')
 
+  _checksums(ctx, repo)
   # ---- D4 port mod -------------------------------------------------------------
   pm = q.find_method(repo, sw, '_rx_port_mod', 'C12'); ctx.analysed(pm)
   g = q.cfg_of(pm)
@@ -354,6 +355,16 @@ def run (ctx):
     good = codes == [code] and not any(s in r for s in setc)
     ctx.ob('R-DOM', pm, "port-mod for %s: %s and no configuration change" % (what, code), good,
            "error sent, config untouched" if good else "errors reachable: %s; config change reachable: %s" % (codes, any(s in r for s in setc)), pm, 'D4')
+  # the loop over the mask's bits is never abandoned: a bit the switch cannot honour must not keep the other bits of the same
+  # message from being applied
+  for st_, h_, af_ in g.loop_nodes:
+    body = g.loop_body_nodes(h_)
+    if not any(s_ in body for s_ in setc): continue
+    inside = set(id(x) for b_ in st_.body for x in walk_no_nested(b_)) | set(id(b_) for b_ in st_.body)
+    leave = [n for n in g.nodes if n.kind in ('return', 'break') and n.ast is not None and id(n.ast) in inside and (n.kind == 'return' or any(x is af_ for x, l_ in n.succ))]
+    ctx.ob('R-ALL', pm, "every bit selected by the mask is processed (the bit loop has no early exit)", not leave, "no break/return inside the loop" if not leave else
+           "`%s` (line %s) leaves the loop over the mask's bits: the remaining bits of the same port-mod (e.g. NO_FWD, NO_FLOOD, NO_RECV after an unsupported NO_STP change) are silently not applied and the port keeps forwarding"
+           % (leave[0].text(40), leave[0].line), (swmod, leave[0].ast) if leave else pm, 'D4')
   spb = q.find_method(repo, sw, '_set_port_config_bit', 'C12'); ctx.analysed(spb)
   cs = [c for c in calls_in(pm.node) if call_name(c) == '_set_port_config_bit']
   if cs:
@@ -380,6 +391,13 @@ def run (ctx):
         ctx.undecided('R-DOM', pm, "only bits selected by the mask are changed", "the bit is derived from the mask arithmetically (`%s`); not evaluated" % norm(c.args[1]), (swmod, c), 'D4')
       else:
         ctx.bad('R-DOM', pm, "only bits selected by the mask are changed", "the configuration bit passed to _set_port_config_bit neither depends on the message's mask nor is tested against it (facts %s): bits outside the mask are overwritten" % fs, (swmod, c), 'D4')
+
+def _checksums (ctx, repo):
+  """rewriting actions re-serialise the frame: the checksum routine they rely on (shared with C14)"""
+  from . import c14
+  f = repo.mod('lib.packet.packet_utils').funcs.get('checksum')
+  if f is not None: ctx.analysed(f)
+  c14.checksum_samples(ctx, repo, 'D6')
 
 def _isinst (clsname):
   def m (e):
